@@ -30,7 +30,7 @@ const (
 func init() {
 	register(Property{ID: "C23", Level: "other", Run: runC23,
 		Technique: "static analysis: field-coverage of encoder composite literals on SSA (E3), sibling agreement of the decoder/encoder type switches (E7), path conditions on writeUnitInner (E1), who-may-write tables (E2)",
-		Text: "Decides: (1) every RTP encoder struct that newRTPEncoder builds and whose type has a PayloadMaxSize / SSRC / InitialSequenceNumber field sets it from the corresponding parameter, and the encoder returned is the configured object; (2) both newRTPEncoder call sites pass the stream format's outFormat and rtpMaxPayloadSize and store the result in that format's rtpEncoder, the oversize site passing the offending packet's SSRC and sequence number; rtpEncoder/rtpTimeOffset are written nowhere else; (3) in writeUnitInner the oversize encoder is created only under len(pkt.Payload) > rtpMaxPayloadSize, every incoming packet is compared before packets pass through, and once an encoder exists incoming packets never reach the readers; (4) every packet of a re-encoded unit gets Timestamp += rtpTimeOffset + uint32(PTS), the oversize offset is pkt.Timestamp - uint32(PTS), and the offset changes only where an encoder is created; (5) for each of the 16 codecs the payload type produced by the format's RTP decoder is the payload type asserted by its encoder; (6) non-RTP / always-available / force-remux sub streams leave initialize with an encoder; (7) rtpMaxPayloadSize is plumbed from core to every streamFormat. Not decided: packetization inside gortsplib encoders (size, sequence numbers, losslessness).",
+		Text: "Decides: (1) every RTP encoder struct that newRTPEncoder builds and whose type has a PayloadMaxSize / SSRC / InitialSequenceNumber field sets it from the corresponding parameter, and the encoder returned is the configured object; (2) both newRTPEncoder call sites pass the stream format's outFormat and rtpMaxPayloadSize and store the result in that format's rtpEncoder, the oversize site passing the offending packet's SSRC and sequence number; rtpEncoder/rtpTimeOffset are written nowhere else; (3) in writeUnitInner the oversize encoder is created only under len(pkt.Payload) > rtpMaxPayloadSize, every incoming packet is compared before packets pass through, and once an encoder exists incoming packets never reach the readers; (4) every packet of a re-encoded unit gets Timestamp += rtpTimeOffset + uint32(PTS), the oversize offset is pkt.Timestamp - uint32(PTS), and the offset changes only where an encoder is created; (4b) the encode wrappers returned by newRTPEncoder leave the library's timestamps alone, except that a wrapper splitting one unit into several timed packets (Opus) adds to packet k an offset that is loop-carried state only, is 0 for the first packet of the unit and grows per iteration by exactly opus.PacketDuration*(element just encoded); (5) for each of the 16 codecs the payload type produced by the format's RTP decoder is the payload type asserted by its encoder; (6) non-RTP / always-available / force-remux sub streams leave initialize with an encoder; (7) rtpMaxPayloadSize is plumbed from core to every streamFormat. Not decided: packetization inside gortsplib encoders (size, sequence numbers, losslessness).",
 		Note: "trusted: gortsplib rtp* encoders honour PayloadMaxSize/SSRC/InitialSequenceNumber and decoders invert them; pion/rtp"})
 	addMutants(
 		Mutant{"C23", "h264-default-max-size", "internal/stream/rtp_encoder.go",
@@ -69,6 +69,7 @@ func runC23(c *Ctx) {
 		"C23.callers / C23.writers: both call sites and the only writers of streamFormat.rtpEncoder / rtpTimeOffset. " +
 		"C23.oversize.*: creation guard, every-packet comparison, no pass-through once an encoder exists (three walks over writeUnitInner's CFG). " +
 		"C23.timestamp.*: per-packet store shape, loop exhaustion before fan-out, oversize offset formula. " +
+		"C23.timestamp.wrapper_offset: every Timestamp store of the 17 encode wrappers is own timestamp + O with O a linear form over loop-carried phis and constants, O = 0 with the phis at their loop-entry values, O(next iteration) - O = PacketDuration*(element passed to the library Encode whose result is stamped); wrappers without a store are listed as pass-through. " +
 		"C23.codec_pairing: for each format type, payload type returned by rtpDecoderX.decode == payload type asserted by rtpEncoderX.encode. " +
 		"C23.encoder.when_needed, C23.plumbing. NOT decided: behaviour of the gortsplib encoders/decoders (size bound given PayloadMaxSize, sequence numbers, losslessness)."
 	c.Assume = []string{"a gortsplib encoder never emits a payload larger than its PayloadMaxSize and numbers packets consecutively from InitialSequenceNumber",
@@ -136,6 +137,11 @@ func runC23(c *Ctx) {
 				c.Check("C23.encoder.returns_configured", "newRTPEncoder: no (nil, nil) return", false, p.Pos(posOf(r, enc)), "")
 			}
 		}
+	}
+
+	// ---- (4b) timestamps inside the encoder wrappers (prop_r3_c23.go)
+	if enc != nil {
+		c23WrapperOffsetsR3(c, p, enc)
 	}
 
 	// ---- (2) call sites and writers
